@@ -1,0 +1,25 @@
+//go:build verif
+
+package gossip
+
+import "github.com/nuts-foundation/nuts-node/network/transport"
+
+// VerifTick runs the registered senders once for each of the given peers that has a gossip queue, in the given order,
+// exactly as the per-peer ticker does (production: wall-clock ticker per connected peer). The manager does not keep the
+// transport.Peer of a queue (only its key), so the caller names the peers. It returns the number of queues ticked.
+func VerifTick(m Manager, peers ...transport.Peer) int {
+	mgr := m.(*manager)
+	ticked := 0
+	for _, peer := range peers {
+		mgr.mutex.RLock()
+		pq, ok := mgr.peers[peer.Key()]
+		senders := mgr.messageSenders
+		mgr.mutex.RUnlock()
+		if !ok {
+			continue
+		}
+		callSenders(peer, pq, senders)
+		ticked++
+	}
+	return ticked
+}
